@@ -239,6 +239,7 @@ class RT(object):
         self.items = {}                     # sid -> item
         self.item_flush = {}                # sid -> index into flush_log
         self.item_cancel = {}               # sid -> error its batch was cancelled with
+        self.public_flush_raises = None     # (kind, serial) of a batch whose public flush() raises afterwards
         self.precreated = {}                # key -> task created at top level before the computation
         self.stash = {}                     # key -> task created inside a task, waited for afterwards
         self.ended = False
@@ -357,6 +358,14 @@ class HBatch(_batching.BatchBase):
     def _try_switch_active_batch(self):
         if self.rt.active.get(self.kind) is self:
             self.rt.active[self.kind] = HBatch(self.rt, self.kind)
+
+    def flush(self):
+        """public flush(); optionally (C05: 'the after event fires even when the flush fails') raises after
+        delegating, the way a subclass that adds bookkeeping around flush() could"""
+        _batching.BatchBase.flush(self)
+        rt = self.rt
+        if rt.public_flush_raises is not None and rt.public_flush_raises == (self.kind, self.serial):
+            raise E(("publicflush", self.kind, self.serial))
 
     def _cancel(self):
         err = self.error()
@@ -1266,7 +1275,7 @@ def outcome_desc(o):
 
 def check_program(td, props, nkinds=2, prio=None, prio_mode="tuple", hash_order=0, conv=0,
                   sv_init=(0, 0), tree_single_kind=False, expect_flushes=None, budget=4000,
-                  flush_hook=None, sig=None, precreate=None):
+                  flush_hook=None, sig=None, precreate=None, public_flush_raises=None):
     """Runs `td` on the real scheduler and on the reference; returns True iff every monitor of
     the requested properties held.  `props` is a set of monitor names."""
     rec.clear_fail()
@@ -1274,6 +1283,7 @@ def check_program(td, props, nkinds=2, prio=None, prio_mode="tuple", hash_order=
     rt = RT(nkinds=nkinds, prio=prio, prio_mode=prio_mode, hash_order=hash_order, budget=budget,
             sv_init=sv_init, monitors=props)
     rt.flush_hook = flush_hook
+    rt.public_flush_raises = public_flush_raises
     try:
         for key, ptd in (precreate or {}).items():
             rt.precreated[key] = _mk_task(rt, ptd, "PRE:%s" % key)
